@@ -17,7 +17,6 @@ const smtHeader = `(declare-datatypes ((Slice 0)) (((mk_slice (s_arr Int) (s_off
 (define-fun go_div ((a Int) (b Int)) Int (ite (>= a 0) (ite (> b 0) (div a b) (- (div a (- b)))) (ite (> b 0) (- (div (- a) b)) (div (- a) (- b)))))
 (define-fun go_mod ((a Int) (b Int)) Int (- a (* b (go_div a b))))
 (declare-fun sl_idx (Slice Int) Int)
-(assert (forall ((s Slice) (i Int)) (! (= (sl_idx s i) (+ (s_off s) i)) :pattern ((sl_idx s i)))))
 (define-fun fld_addr ((a Int) (i Int)) Int (+ (* a 1000000007) i))
 (declare-fun item_val_arr (Int) Int)
 (declare-fun err_is (Iface Iface) Bool)
@@ -34,6 +33,13 @@ const smtHeader = `(declare-datatypes ((Slice 0)) (((mk_slice (s_arr Int) (s_off
 (declare-fun atoi (String) Int)
 (declare-fun atoi_ok (String) Bool)
 `
+
+// quantified header axioms, added to a query only when the symbol occurs in it (quantifiers in a query make the
+// solvers answer "unknown" instead of "sat", which weakens vacuity probes and counterexamples)
+var headerAxioms = []struct{ sym, text string }{
+	{"sl_idx", "(assert (forall ((s Slice) (i Int)) (! (= (sl_idx s i) (+ (s_off s) i)) :pattern ((sl_idx s i)))))\n"},
+	{"box_slice", "(assert (forall ((s Slice)) (! (= (unbox_slice (box_slice s)) s) :pattern ((box_slice s)))))\n"},
+}
 
 // canonical short name for a package path
 func pkgShort(path string) string {
@@ -168,7 +174,15 @@ func zeroOf(s Sort) Term {
 		return Term{"nil_iface", SIface}
 	}
 	if strings.HasPrefix(string(s), "(Array ") {
-		return Term{fmt.Sprintf("((as const %s) %s)", s, zeroOf(arrayValSort(s)).S), s}
+		// cvc5 wants a literal value inside a constant array
+		inner := zeroOf(arrayValSort(s)).S
+		switch arrayValSort(s) {
+		case SIface:
+			inner = "(mk_iface 0 0 \"\" false 0.0)"
+		case SSlice:
+			inner = "(mk_slice 0 0 0 0)"
+		}
+		return Term{fmt.Sprintf("((as const %s) %s)", s, inner), s}
 	}
 	return IntLit(0)
 }
